@@ -1055,3 +1055,45 @@ Proof.
   intros Hbw H. destruct (rom_read_ok aw bw pad data a v Hbw H) as [_ [Hv _]].
   apply sanitize_id; [assumption|exact Hv].
 Qed.
+
+(* ------------------------------------------------------------------ *)
+(** * (vii) the write port built by conditional_assignment               *)
+Lemma cond_fold_false (l : list (bool * wport)) : Forall (fun pw => fst pw = false) l ->
+  forall acc, fold_left (fun (acc : wport) (pw : bool * wport) => if fst pw then snd pw else acc) l acc = acc.
+Proof.
+  induction l as [|[p w] r IH]; intros H acc; [reflexivity|].
+  inversion H as [|? ? Hp Hr]; subst. simpl in *. rewrite Hp. apply IH. assumption.
+Qed.
+
+(* the predicates of one conditional block are mutually exclusive: when branch (true, w) is the
+   one taken, the port IS that branch's write -- with ITS enable *)
+Theorem cond_port_taken pre w post :
+  Forall (fun pw => fst pw = false) pre -> Forall (fun pw => fst pw = false) post ->
+  cond_port (pre ++ (true, w) :: post) = w.
+Proof.
+  intros Hpre Hpost. destruct w as [[a d] e]. destruct pre as [|[p0 w0] pre']; simpl.
+  - apply cond_fold_false. assumption.
+  - assert (Hp : p0 = false) by (inversion Hpre; assumption).
+    assert (Hr : Forall (fun pw : bool * wport => fst pw = false) pre') by (inversion Hpre; assumption).
+    subst p0. rewrite fold_left_app. rewrite (cond_fold_false pre' Hr). simpl.
+    apply cond_fold_false. assumption.
+Qed.
+
+(* when no branch is taken nothing is written *)
+Theorem cond_port_none brs : Forall (fun pw => fst pw = false) brs ->
+  enabled (cond_port brs) = false.
+Proof.
+  intros H. destruct brs as [|[p0 w0] rest]; [reflexivity|].
+  assert (Hp : p0 = false) by (inversion H; assumption).
+  assert (Hr : Forall (fun pw : bool * wport => fst pw = false) rest) by (inversion H; assumption).
+  subst p0. simpl. rewrite (cond_fold_false rest Hr). reflexivity.
+Qed.
+
+(* in particular a taken branch whose own enable is 0 is a no-op *)
+Corollary cond_port_disabled_branch pre w post A :
+  Forall (fun pw => fst pw = false) pre -> Forall (fun pw => fst pw = false) post ->
+  w_en w = 0 -> forall a, arr_write A (cond_port (pre ++ (true, w) :: post)) a = A a.
+Proof.
+  intros H1 H2 He a. rewrite cond_port_taken by assumption.
+  unfold arr_write, enabled. rewrite He. reflexivity.
+Qed.
